@@ -79,7 +79,10 @@ def run(C, R):
         R.floor('C05.W wrapper-paths[%s]' % cfg, wrapper_discipline(C, R, cfg, ['sync::semaphore::SemaphoreState'], 'C05.W'), 2)
         nsub = 0
         add_fns = set()
-        for m in F.methods_of(STATE):
+        from rl import breach_wrappers
+        # the state's methods, plus the functions outside the state layer that act as transitions of their own
+        subjects = [m for m in F.methods_of(STATE)] + [F.fn(p) for p in sorted(breach_wrappers(F, CG).get(STATE, {}))]
+        for m in subjects:
             if m.get('name') == 'new':
                 continue
             paths = E.run(m['path'])
@@ -95,6 +98,10 @@ def run(C, R):
                     if w not in subs and w not in adds:
                         R.fail('C05.R2', [m['path'], 'opaque-permit-write'],
                                'permits written with %s' % fmt_val(w['val']), where(F, w))
+                if len(adds) > 1:
+                    R.fail('C05.R2', [m['path'], 'permits-added-more-than-once'],
+                           '%s adds to permits %d times on one path: one release(n) must return exactly n permits'
+                           % (m['path'], len(adds)), where(F, adds[1]), {'trace': trace_summary(path)})
                 for w in adds:
                     add_fns.add(w['fn'])
                     if w['val'][2] != w['old']:
